@@ -313,7 +313,11 @@ def run_framing(rng, res, tier, case=None):
     todo = [('replay', tuple(case['cut']))] if case['cut'] is not None else chunkings(data, rng, tier)
     for label, cut in todo:
         p, tr, rec = ch.fresh()
-        deliver(p, tr, cuts_of(data, cut))
+        try:
+            deliver(p, tr, cuts_of(data, cut))
+        except Exception as e:  # pylint: disable=broad-exception-caught
+            bad.append(('fragmentation-proof', f'{ch.name}: stream of {len(data)} bytes cut at {list(cut)[:6]} ({label}): dataReceived raised {type(e).__name__}: {e}', dict(case, cut=list(cut))))
+            break
         res.count('chunkings')
         res.count('chunking_' + label)
         if set(cut) & headers:
@@ -474,7 +478,10 @@ def run_handshake(rng, res, tier, case=None):
             plans = [((), ())]
             plans += [((i,), ()) for i in range(1, len1)] if len1 <= 400 else []
             # packet 2 length is only known after a run; use a first run to learn it
-            _r, _d, _e, l2 = attempt((), ())
+            try:
+                _r, _d, _e, l2 = attempt((), ())
+            except Exception:  # pylint: disable=broad-exception-caught
+                l2 = None  # reported by the loop below
             if isinstance(l2, int):
                 tot = l2 + len(app)
                 pos = list(range(1, tot)) if tot <= 500 else sorted(set(list(range(1, 24)) + list(range(max(1, l2 - 12), min(tot, l2 + 24))) + rng.sample(range(1, tot), 60)))
@@ -483,7 +490,12 @@ def run_handshake(rng, res, tier, case=None):
                 for _ in range(30):
                     plans.append(((rng.randint(1, len1 - 1),), tuple(sorted(rng.sample(range(1, tot), min(3, tot - 1))))))
         for cut_a, cut_b in plans:
-            rec, disc, early, l2 = attempt(cut_a, cut_b)
+            try:
+                rec, disc, early, l2 = attempt(cut_a, cut_b)
+            except Exception as e:  # pylint: disable=broad-exception-caught
+                bad.append(('delivered-after-handshake', f'{ch.name}: handshake run (fault={fault}, cuts {cut_a}/{cut_b}) raised {type(e).__name__}: {e}',
+                            dict(case, cutA=list(cut_a), cutB=list(cut_b))))
+                break
             res.count('handshake_runs')
             if fault:
                 res.count('handshake_fault_runs')
